@@ -8,23 +8,29 @@ V = os.path.dirname(os.path.dirname(os.path.abspath(__file__)))
 only = sys.argv[2] if len(sys.argv) > 2 and sys.argv[1] == "--only" else None
 kf = json.load(open(os.path.join(V, "known_findings.json")))["findings"]
 rows = []
+jobs = []
 def run(target, checks, label, origin):
+    jobs.append((target, checks, label, origin))
+def _run(job):
+    target, checks, label, origin = job
+    rows = []
     r = subprocess.run([os.path.join(V, "tools", "mutant.py"), target, "--checks", ",".join(checks)], capture_output=True, text=True)
     try:
         out = json.loads(r.stdout[r.stdout.index("{"):])
     except Exception:
         rows.append((label, origin, ",".join(checks), "patch does not apply on HEAD", ""))
-        return
+        return rows
     for c in checks:
         o = out.get(f"check {c}", {})
         kinds = next((l.split("violation kinds:")[1].strip() for l in o.get("lines", []) if "violation kinds" in l), "")
         rows.append((label, origin, c, {0: "MISSED (exit 0)", 1: "caught (exit 1)", 2: "inconclusive (exit 2)", 3: "broken harness"}.get(o.get("rc"), str(o.get("rc"))), kinds[:140]))
+    return rows
 for d in sorted(glob.glob(os.path.join(V, "seeded", "*"))):
     if not os.path.isdir(d): continue
     meta = json.load(open(os.path.join(d, "meta.json")))
     p = meta["property"]
     if only and p != only: continue
-    run(d, [p], os.path.basename(d), "sub-agent")
+    run(d, [p], os.path.basename(d), "sub-agent" + (" (no longer breaks the property: " + meta["neutralised_by"] + ")" if meta.get("neutralised_by") else ""))
 for f in sorted(glob.glob(os.path.join(V, "mutants", "revert_*.diff"))):
     h = re.search(r"revert_(\w+)\.diff", f).group(1)
     props = sorted({e["property"] for e in kf if e.get("commit", "").startswith(h[:7]) or h.startswith(e.get("commit", "zzz")[:7])})
@@ -35,6 +41,10 @@ for f in sorted(glob.glob(os.path.join(V, "mutants", "c[0-9][0-9]_*.diff"))):
     p = "C" + os.path.basename(f)[1:3]
     if only and p != only: continue
     run(f, [p], os.path.basename(f), "hand-made")
+from concurrent.futures import ThreadPoolExecutor
+with ThreadPoolExecutor(max_workers=4) as ex:
+    for part in ex.map(_run, jobs):
+        rows.extend(part)
 with open(os.path.join(V, "mutants", "MATRIX.md"), "w") as fh:
     fh.write("| change | origin | check | outcome (quick tier, seed 0) | violation kinds |\n|---|---|---|---|---|\n")
     for r in rows:
